@@ -11,6 +11,7 @@ import (
 	"strconv"
 	"strings"
 	"sync"
+	"sync/atomic"
 	"time"
 
 	"github.com/gorilla/websocket"
@@ -41,6 +42,8 @@ type ext struct {
 	// the transport the case's `api` operations use (op `apivia`): "" / "handle" = a DatabaseAPI from
 	// api.CreateDatabaseAPI driven through Handle; "ws" = a websocket connection to the HTTP handler of
 	// /api/database/v1 (startDatabaseWebsocketAPI, which builds its own DatabaseAPI) served by a test server
+	inbox   map[string][]string // replies read off the transport while waiting for another operation's, by operation id
+	apiSubs map[string]string   // subscription name -> operation id of the `sub` request
 	via   string
 	wsSrv *httptest.Server
 	ws    *websocket.Conn
@@ -115,24 +118,42 @@ func (p *logProvider) Get(keyOrPrefix string) ([]record.Record, error) {
 		g := &gateG{resume: make(chan struct{})}
 		for i := range out {
 			last := i == len(out)-1
-			out[i] = &gateRec{Record: out[i], onUnlock: func() { gt.pause(g, last) }}
+			out[i] = &gateRec{Record: out[i], stop: func(final bool) { gt.pause(g, final && last) }}
 		}
 		gt.pause(g, len(out) == 0)
 	}
 	return out, nil
 }
 
-// gateRec is a record whose first Unlock reports to the scheduler of a gated query: Registry.Query evaluates its
-// filter between Lock and Unlock and decides after Unlock, so the goroutine is parked between the two.
+// gateRec is a record that reports to the scheduler of a gated query. Registry.Query evaluates its filter between
+// Lock and Unlock (DatabaseKey for the key prefix, Meta twice for validity and permission) and decides after Unlock:
+// the goroutine is parked before each of those reads — between the evaluation of one check and the next — and,
+// after the evaluation, at the first Unlock, i.e. between evaluation and decision. Every stop happens once.
 type gateRec struct {
 	record.Record
-	once     sync.Once
-	onUnlock func()
+	stop   func(final bool)
+	nKey   int32
+	nMeta  int32
+	unlock sync.Once
+}
+
+func (g *gateRec) DatabaseKey() string {
+	if atomic.AddInt32(&g.nKey, 1) == 1 {
+		g.stop(false)
+	}
+	return g.Record.DatabaseKey()
+}
+
+func (g *gateRec) Meta() *record.Meta {
+	if atomic.AddInt32(&g.nMeta, 1) <= 2 {
+		g.stop(false)
+	}
+	return g.Record.Meta()
 }
 
 func (g *gateRec) Unlock() {
 	g.Record.Unlock()
-	g.once.Do(g.onUnlock)
+	g.unlock.Do(func() { g.stop(true) })
 }
 
 type gateG struct{ resume chan struct{} }
@@ -268,8 +289,15 @@ func (x *ext) api(e *dbx.Exec) *api.DatabaseAPI {
 		if x.replies == nil {
 			x.replies = make(chan string, 4096)
 		}
-		a := api.CreateDatabaseAPI(func(data []byte) { x.replies <- string(data) })
+		replies := x.replies
+		a := api.CreateDatabaseAPI(func(data []byte) {
+			select {
+			case replies <- string(data):
+			default: // nobody reads any more (the case is over)
+			}
+		})
 		x.dbapi = &a
+		e.Closers = append(e.Closers, a.VerifShutdown) // ends the API's subscriptions with the case
 	}
 	return x.dbapi
 }
@@ -311,9 +339,12 @@ func showAPIRecord(dbName, key, data string) string {
 	return k + "~" + dbx.ShowPayload(w)
 }
 
+// opCounter numbers the API requests of the whole run (operation ids never repeat, so a late message or event of an
+// earlier case cannot be mistaken for one of the current case).
+var opCounter int64
+
 func (x *ext) send(e *dbx.Exec, verb, rest string) (id string) {
-	x.opID++
-	id = strconv.Itoa(x.opID)
+	id = strconv.FormatInt(atomic.AddInt64(&opCounter, 1), 10)
 	msg := []byte(id + "|" + verb + "|" + rest)
 	transportLock.Lock()
 	if x.via == "ws" {
@@ -338,16 +369,45 @@ func (x *ext) send(e *dbx.Exec, verb, rest string) (id string) {
 }
 
 func (x *ext) recv(id string) (typ string, parts []string, ok bool) {
+	split := func(r string) (string, []string) {
+		p := strings.SplitN(r, "|", 4)
+		return p[1], p[2:]
+	}
 	for {
+		if q := x.inbox[id]; len(q) > 0 {
+			x.inbox[id] = q[1:]
+			typ, parts = split(q[0])
+			return typ, parts, true
+		}
 		select {
 		case r := <-x.replies:
-			p := strings.SplitN(r, "|", 4)
-			if len(p) < 2 || p[0] != id {
-				continue // reply to an earlier operation
+			p := strings.SplitN(r, "|", 3)
+			if len(p) < 2 {
+				continue
 			}
-			return p[1], p[2:], true
+			// replies of other operations (notifications of a subscription, late messages) are kept for the
+			// operation that reads them: nothing that comes back from the API is dropped unseen
+			if x.inbox == nil {
+				x.inbox = map[string][]string{}
+			}
+			x.inbox[p[0]] = append(x.inbox[p[0]], r)
 		case <-time.After(10 * time.Second):
 			return "", nil, false
+		}
+	}
+}
+
+// subReady carries the operation ids of API subscriptions that have been registered with the database (verif event
+// "dbapi:sub-ready"): a `sub` request is not acknowledged on the wire.
+var subReady = make(chan string, 4096)
+
+func apiSink(point string, args ...any) {
+	if point == "dbapi:sub-ready" && len(args) > 0 {
+		if id, ok := args[0].(string); ok {
+			select {
+			case subReady <- id:
+			default:
+			}
 		}
 	}
 }
@@ -601,6 +661,86 @@ func (x *ext) do(e *dbx.Exec, f []string) (string, bool) {
 				return "ok", true
 			}
 			return apiErr(strings.Join(p, "|")), true
+		case "sub":
+			// api sub <name> <prefix>: a subscription through the database API. The request is not acknowledged;
+			// the op returns when the API has registered it with the database.
+			if len(f) != 4 {
+				return "bad-op", true
+			}
+			pfx := f[3]
+			if pfx == "-" {
+				pfx = ""
+			}
+			id := x.send(e, "sub", "query "+db+":"+pfx)
+			deadline := time.After(10 * time.Second)
+			for {
+				if q := x.inbox[id]; len(q) > 0 { // an error reply
+					x.inbox[id] = q[1:]
+					p := strings.SplitN(q[0], "|", 4)
+					return apiErr(strings.Join(p[2:], "|")), true
+				}
+				select {
+				case rid := <-subReady:
+					if rid == id {
+						if x.apiSubs == nil {
+							x.apiSubs = map[string]string{}
+						}
+						x.apiSubs[f[2]] = id
+						return "ok", true
+					}
+				case r := <-x.replies:
+					if p := strings.SplitN(r, "|", 3); len(p) >= 2 {
+						if x.inbox == nil {
+							x.inbox = map[string][]string{}
+						}
+						x.inbox[p[0]] = append(x.inbox[p[0]], r)
+					}
+				case <-deadline:
+					return "HANG", true
+				}
+			}
+		case "feed":
+			// api feed <name> <sentinel key>: everything the API pushed for the subscription, in order, up to and
+			// including the notification about the sentinel record (written just before by a privileged interface:
+			// notifications are delivered in order, so nothing that was pushed earlier is still under way)
+			if len(f) != 4 || x.apiSubs[f[2]] == "" {
+				return "bad-op", true
+			}
+			id := x.apiSubs[f[2]]
+			var items []string
+			for {
+				typ, p, ok := x.recv(id)
+				if !ok {
+					return "HANG", true
+				}
+				key := ""
+				if len(p) >= 1 {
+					key = strings.TrimPrefix(p[0], db+":")
+				}
+				switch typ {
+				case "upd", "new":
+					if len(p) == 2 {
+						items = append(items, "upd:"+showAPIRecord(db, p[0], p[1]))
+					} else {
+						items = append(items, "upd:"+key+"~undecodable")
+					}
+				case "del":
+					items = append(items, "del:"+key)
+				case "warning": // a record the API cannot render as JSON: the operation continues
+					continue
+				default:
+					items = append(items, "unexpected:"+typ+":"+strings.Join(p, "|"))
+				}
+				if key == f[3] {
+					if len(items) == 0 {
+						return "ok 0", true
+					}
+					return fmt.Sprintf("ok %d %s", len(items), strings.Join(items, " ")), true
+				}
+				if typ == "done" || typ == "error" {
+					return fmt.Sprintf("ok %d %s", len(items), strings.Join(items, " ")), true
+				}
+			}
 		case "delete":
 			id := x.send(e, "delete", db+":"+f[2])
 			typ, p, ok := x.recv(id)
@@ -819,6 +959,23 @@ func (g *gen) history(emit func(hxlib.Case), backend string, shadow bool) {
 	drain := func() {
 		for i := 1; i <= nsub; i++ {
 			lines = append(lines, fmt.Sprintf("feed s%d", i))
+		}
+	}
+	// a subscription through the database API (uncached histories, one in four): after every step a fully privileged
+	// interface writes a sentinel record the API may see, and the notifications are read up to the sentinel's
+	apiSub, sentinel := false, ""
+	if !anyCached && rng.Intn(4) == 0 {
+		apiSub = true
+		pfx := g.pick([]string{"-", "-", "a", "c/"})
+		sentinel = map[string]string{"-": "zsent", "a": "a/zsent", "c/": "c/zsent"}[pfx]
+		lines = append(lines, "if Z 1 1 n 0 0 0 0", "api sub as1 "+pfx)
+		g.r.Count("op:subscribe:api")
+	}
+	drain0 := drain
+	drain = func() {
+		drain0()
+		if apiSub {
+			lines = append(lines, "put Z "+sentinel+" J 0,0,0,0,0,0 S=s:sent", "api feed as1 "+sentinel)
 		}
 	}
 	n := 20 + rng.Intn(60)
@@ -1111,6 +1268,29 @@ func (g *gen) parkCase(emit func(hxlib.Case), backend string) {
 	emit(hxlib.Case{Lines: lines, NonTrivial: true, Kind: "query-vs-reflag:" + backend, NoModel: true})
 }
 
+// registryStress: four providers under one query prefix, each holding protected and visible records in alternation, and
+// the same query repeated thousands of times free running — real parallelism between the provider goroutines of
+// Registry.Query, for windows no stop point of the gated scheduler lies in (and for the race detector, thorough tier).
+func (g *gen) registryStress(emit func(hxlib.Case)) {
+	lines := []string{"cfg h 0", "rtinit 0 m4"}
+	for _, a := range append(actors, struct{ id, l, i string }{"P", "1", "1"}) {
+		lines = append(lines, fmt.Sprintf("if %s %s %s n 0 0 0 0", a.id, a.l, a.i))
+	}
+	flags := []string{"1,1", "0,0", "1,0", "0,0", "0,1", "0,0"}
+	n := 0
+	for _, x := range []string{"a", "b", "c", "d"} {
+		for _, k := range []string{"1", "2", "s/3"} {
+			g.marker++
+			lines = append(lines, fmt.Sprintf("rtput p/%s/%s J 0,0,0,0,%s S=s:m%d;I=i:%d", x, k, flags[n%len(flags)], g.marker, n))
+			n++
+		}
+		n++ // shift the pattern from provider to provider
+	}
+	reps := g.r.Budget(3000, 40000)
+	lines = append(lines, fmt.Sprintf("rtfq A p/ %d", reps), fmt.Sprintf("rtfq B p/ %d", reps), fmt.Sprintf("rtfq C - %d", reps), "query P p/ -")
+	emit(hxlib.Case{Lines: lines, NonTrivial: true, Kind: "runtime-registry:4-providers:free-running-stress"})
+}
+
 func generate(r *hxlib.Run, emit0 func(hxlib.Case)) {
 	emit := func(c hxlib.Case) {
 		if !dbx.Hung() {
@@ -1121,12 +1301,14 @@ func generate(r *hxlib.Run, emit0 func(hxlib.Case)) {
 	// regression: every path once with a secret and a crown-jewel record
 	base := []string{"if P 1 1 n 0 0 0 0", "if A 0 0 n 0 0 0 0", "if B 0 1 r 0 0 0 0", "if C 1 0 n 0 0 0 0",
 		"put P a/x J 0,0,0,0,1,0 S=s:m1;I=i:7", "put P a/y T 0,0,0,0,0,1 S=s:m2;I=i:7;F=f:0;B=b:0;N=o{X=i:0};L=a[]", "put P b J 0,0,0,0,1,1 S=s:m3", "put P abc J 0,0,0,0,0,0 S=s:m4",
-		"sub A s1 - -", "sub B s2 - -", "sub C s3 - -",
+		"sub A s1 - -", "sub B s2 - -", "sub C s3 - -", "if Z 1 1 n 0 0 0 0", "api sub as1 -",
 		"get A a/x", "get B a/x", "get C a/x", "get A a/y", "get B a/y", "get C a/y", "exists A b", "get A abc",
 		"query A - -", "query B - -", "query C - -", "api get a/x", "api get abc", "api query - -",
 		"put A a/x J 0,0,0,0,0,0 S=s:m5", "del A a/x", "setabs A a/x 5", "mkcrown B a/x", "insert A a/x S s:m6", "api update a/x S=s:m7", "api delete a/x", "api insert a/x S s:m8",
 		"pmbegin A", "pmput A a/x J 0,0,0,0,0,0 S=s:m9", "pmend A", "purge A - -", "get P a/x", "get P a/y", "get P b",
-		"put P a/x J 0,0,0,0,1,0 S=s:m10", "mksecret P abc", "del P b", "feed s1", "feed s2", "feed s3"}
+		"put Z zsent J 0,0,0,0,0,0 S=s:sent", "api feed as1 zsent",
+		"put P a/x J 0,0,0,0,1,0 S=s:m10", "mksecret P abc", "del P b", "feed s1", "feed s2", "feed s3",
+		"put Z zsent J 0,0,0,0,0,0 S=s:sent", "api feed as1 zsent"}
 	for _, b := range []string{"h", "b", "f", "g"} {
 		for _, sh := range []string{"0", "1"} {
 			emit(hxlib.Case{Lines: append([]string{"cfg " + b + " " + sh}, base...), NonTrivial: true, Kind: "regression"})
@@ -1134,6 +1316,7 @@ func generate(r *hxlib.Run, emit0 func(hxlib.Case)) {
 		// the same walk with the API operations over a real websocket connection
 		emit(hxlib.Case{Lines: append([]string{"cfg " + b + " 0", "apivia ws"}, base...), NonTrivial: true, Kind: "regression:websocket-api"})
 	}
+	g.registryStress(emit)
 	n := r.Budget(400, 6000)
 	for i := 0; i < n; i++ {
 		for _, backend := range []string{"h", "b", "f", "g"} {
@@ -1458,6 +1641,7 @@ func monitor(c hxlib.Case, outs []string) (vs []hxlib.Violation) {
 
 func main() {
 	defer dbx.Cleanup()
+	api.VerifSetSink(apiSink)
 	hxlib.Main(&hxlib.Harness{
 		Prop:     "C03",
 		Rule: "a case is one history on one backend (hashmap/bbolt/fstree/badger x shadow-delete) or on an injected runtime database (runtime.Registry whose value provider keeps and logs every record its Set receives, starts with records of all four flag combinations and also changes and pushes values on its own; all actors read and write there: put, put-new, delete, expiry and flag setters, attribute insert, get-and-put-back, batch, purge, API create/update/insert/delete; the Set log and the feeds are drained after every step and the monitor checks that no Set reaches the provider for a key whose current record is visible and not permitted for the actor of that step): a privileged interface (sometimes with AlwaysMakeSecret / AlwaysMakeCrownjewel) writes records with all four flag combinations, each carrying a unique marker string; interfaces with Local/Internal = 00, 01, 10 (one of them possibly with a read cache, then used exclusively) and the database API (NewInterface(nil)) get, test existence, query, put, put-new, delete, set expiry, re-flag, insert attributes, batch-write, purge and subscribe; feeds are drained after every step. Outputs are compared with the compiled Lean model line by line; the monitor checks that no output of a non-privileged actor contains the marker of a record version that actor may not see, and replays the case on a reference map with the permission rules (denied / exists-only / no write-through). Regression cases walk every path once per backend. Parked-query cases (every 10th round, per backend, implementation only): 4-60 records below one prefix, some already protected; a non-privileged query whose consumer does not read until the result buffer is full (or the executor is done), then the privileged interface marks a subset secret / crown jewel / both and returns, then the consumer reads on; records are rendered as they arrive: no marker of a record protected before the query began, and from the (buffer capacity + 2)-th arrival on no record that itself carries a flag the interface may not see. Distinct by the hash of the lines.",
